@@ -567,10 +567,11 @@ class Exec:
     def ev_Call(self, p, n):
         if self.spec and isinstance(n.func, ast.Name) and n.func.id == "old":
             se = self.lookup(p, "__specenv__")
+            cur = {k: v for k, v in p.frame.vars.items() if k != "__specenv__"}
             if se.old is None:
-                yield p, se._eval(n.args[0], se.p)
+                yield p, se._eval(n.args[0], se.p, cur)
             else:
-                yield p, se._eval(n.args[0], se.old)
+                yield p, se._eval(n.args[0], se.old, cur)
             return
         if any(isinstance(a, ast.Starred) for a in n.args) or any(k.arg is None for k in n.keywords):
             yield from self._call_star(p, n)
